@@ -78,8 +78,8 @@ fn c32_ts_ctor() {
     let t = h::ts_raw(NtpTimestamp::from_seconds_nanos_since_ntp_era(s, n));
     assert!((t >> 32) as u32 == s, "seconds part");
     // fraction f is the floor of n * 2^32 / 1e9, characterised without dividing
-    let f = (t & 0xFFFF_FFFF) as u128;
-    let scaled = (n as u128) << 32;
+    let f = t & 0xFFFF_FFFF;
+    let scaled = (n as u64) << 32;
     assert!(f * 1_000_000_000 <= scaled && scaled < (f + 1) * 1_000_000_000, "fraction is floor(n * 2^32 / 1e9)");
 }
 
